@@ -10,6 +10,7 @@ package main
 
 import (
 	"fmt"
+	"go/token"
 	"os"
 	"regexp"
 	"strconv"
@@ -42,15 +43,25 @@ type FuncContract struct {
 	Header   string
 	Requires []*Clause
 	Ensures  []*Clause
+	Assumes  []*Clause // postconditions callers may assume but the body is not checked against (listed as assumptions)
 	LoopInv  map[int][]*Clause
 	LoopDec  map[int]*Clause
 	LoopMod  map[int][]*ModItem
 	LabelInv map[string][]*Clause
+	Anchors  []*Anchor
 	Modifies []*ModItem
 	Attrs    map[string]string // trusted, inline, pure, atomic, constructor, holds, ...
 	Ghost    []*GhostStmt
 	Line     int
 	File     string
+}
+
+// Anchor is an assertion placed just before the k-th call (source order) of a callee.
+type Anchor struct {
+	Callee string
+	Ord    int
+	C      *Clause
+	Pos    token.Pos
 }
 
 type GhostStmt struct {
@@ -89,7 +100,8 @@ type LockInv struct {
 	Expr  string
 	Tags  []string
 	GoName string
-	Guards []string // field paths guarded
+	Guards []*ModItem // locations guarded by the mutex (paths from the owner)
+	TParams string
 }
 
 type ContractFile struct {
@@ -101,6 +113,7 @@ type ContractFile struct {
 	Lemmas  []*Lemma
 	LockInvs []*LockInv
 	Decls   []string // raw Go declarations (ghost vars, helper types)
+	Shared  []string // locations accessed with sync/atomic by several goroutines: "Type.field" or "cell T"
 }
 
 func (fc *FuncContract) Key() string {
@@ -236,9 +249,7 @@ func parseContractFile(pkg, path string) (*ContractFile, error) {
 				return nil, errf("guards without lockinv")
 			}
 			li := cf.LockInvs[len(cf.LockInvs)-1]
-			for _, g := range strings.Split(rest, ",") {
-				li.Guards = append(li.Guards, strings.TrimSpace(g))
-			}
+			li.Guards = append(li.Guards, parseModItems(rest, 0)...)
 		case "func":
 			m := reFuncHdr.FindStringSubmatch(t)
 			if m == nil {
@@ -248,16 +259,21 @@ func parseContractFile(pkg, path string) (*ContractFile, error) {
 			cur = &FuncContract{Arch: curArch, Pkg: pkg, Recv: m[3], Name: m[5], Header: t, LoopInv: map[int][]*Clause{}, LabelInv: map[string][]*Clause{},
 				LoopDec: map[int]*Clause{}, LoopMod: map[int][]*ModItem{}, Attrs: map[string]string{}, Line: l.n, File: path}
 			cf.Funcs = append(cf.Funcs, cur)
-		case "requires", "ensures":
+		case "shared":
+			cf.Shared = append(cf.Shared, rest)
+		case "requires", "ensures", "assumes":
 			if cur == nil {
 				return nil, errf("%s outside func", word)
 			}
 			tags, label, e := parseTags(rest)
 			c := &Clause{Kind: word, Tags: tags, Label: label, Expr: e, Line: l.n}
-			if word == "requires" {
+			switch word {
+			case "requires":
 				cur.Requires = append(cur.Requires, c)
-			} else {
+			case "ensures":
 				cur.Ensures = append(cur.Ensures, c)
+			default:
+				cur.Assumes = append(cur.Assumes, c)
 			}
 		case "modifies":
 			if cur == nil {
@@ -287,10 +303,30 @@ func parseContractFile(pkg, path string) (*ContractFile, error) {
 			case "decreases":
 				cur.LoopDec[k] = &Clause{Kind: "decreases", Expr: body, Loop: k, Line: l.n}
 			case "modifies":
+				if cur.LoopMod[k] == nil {
+					cur.LoopMod[k] = []*ModItem{}
+				}
 				cur.LoopMod[k] = append(cur.LoopMod[k], parseModItems(body, k)...)
 			default:
 				return nil, errf("bad loop clause kind %q", f[1])
 			}
+		case "at":
+			// at call <callee>#k assert [tags] #label expr
+			if cur == nil {
+				return nil, errf("at outside func")
+			}
+			f := strings.Fields(rest)
+			if len(f) < 4 || f[0] != "call" || f[2] != "assert" {
+				return nil, errf("bad anchor clause (want: at call <callee>#k assert expr)")
+			}
+			callee, ord := f[1], 1
+			if i := strings.Index(callee, "#"); i >= 0 {
+				ord, _ = strconv.Atoi(callee[i+1:])
+				callee = callee[:i]
+			}
+			body := strings.TrimSpace(rest[strings.Index(rest, " assert ")+8:])
+			tags, label, e := parseTags(body)
+			cur.Anchors = append(cur.Anchors, &Anchor{Callee: callee, Ord: ord, C: &Clause{Kind: "assert", Tags: tags, Label: label, Expr: e, Line: l.n}})
 		case "label":
 			// label <name> invariant [tags] expr   (assembly functions)
 			if cur == nil {
@@ -619,5 +655,9 @@ func gcImplies(a, b bool) bool { return !a || b }
 func gcForall[T any](f func(T) bool) bool { var z T; return f(z) }
 func gcExists[T any](f func(T) bool) bool { var z T; return f(z) }
 func gcAllocated[T any](x T) bool { return true }
+func gcFresh[T any](x T) bool { return true }
+func gcSum[K comparable](m map[K]int64) int64 { var s int64; for _, v := range m { s += v }; return s }
+func gcCard[K comparable, V any](m map[K]V) int { return len(m) }
+func gcHas[K comparable, V any](m map[K]V, k K) bool { _, ok := m[k]; return ok }
 func gcSameArray[T any](a, b []T) bool { return len(a) > 0 && len(b) > 0 && &a[0] == &b[0] }
 `
